@@ -226,15 +226,18 @@ pub fn run_c16(ctx: &Ctx) {
     });
     // typed corpus: genuinely const-evaluated keys
     let mut m = 0u64;
-    for (name, s, ckey) in crate::checks::schema_typed::corpus_const_keys() {
-        m += 1;
+    for (name, s, ckeys) in crate::checks::schema_typed::corpus_const_keys() {
         let t = from_static(s);
         let owned = OwnedDataModelType::from(s);
-        let ko = Key::for_owned_schema_path("test_path", &owned).to_bytes();
-        let kh = postcard_schema::key::hash::fnv1a64::verif_hash_path_schema("test_path", s);
-        let kr = reference_key("test_path", &t);
-        if ckey != ko || ckey != kh || ckey != kr {
-            ctx.violation("key-const-eval", format!("{name}: const-evaluated {} hook {} owned {} reference {}", hex(&ckey), hex(&kh), hex(&ko), hex(&kr)), m, json!({"type": name}));
+        for (pi, path) in crate::checks::schema_typed::CONST_PATHS.iter().enumerate() {
+            m += 1;
+            let ckey = ckeys[pi];
+            let ko = Key::for_owned_schema_path(path, &owned).to_bytes();
+            let kh = postcard_schema::key::hash::fnv1a64::verif_hash_path_schema(path, s);
+            let kr = reference_key(path, &t);
+            if ckey != ko || ckey != kh || ckey != kr {
+                ctx.violation("key-const-eval", format!("{name} path {:?}: const-evaluated Key::for_path {} hook {} owned {} reference {}", path, hex(&ckey), hex(&kh), hex(&ko), hex(&kr)), m, json!({"type": name, "path": path}));
+            }
         }
     }
     let total = n.load(Ordering::Relaxed) + m;
